@@ -1943,6 +1943,11 @@ fn spawn_of_function(parameter_type: Option<Type>, body: Expression) -> Term {
     )
 }
 
+/// Succeeds (consuming nothing) unless a `{` comes next, after optional whitespace.
+fn no_block(input: Span) -> IResult<Span, ()> {
+    not(peek(pair(ws0, char('{'))))(input)
+}
+
 fn spawn_term(input: Span) -> IResult<Span, Term> {
     let start = input;
     let (rest, term) = alt((
@@ -1974,8 +1979,10 @@ fn spawn_term(input: Span) -> IResult<Span, Term> {
             tuple((preceded(char('@'), tuple_type), preceded(opt(ws1), block))),
             |(tuple_ty, body)| spawn_of_function(Some(tuple_ty), body),
         ),
-        // @<primary> - Match @ followed by optional primary (bare @ becomes @~)
-        map(preceded(char('@'), opt(primary)), |opt_t| {
+        // @<primary> - Match @ followed by optional primary (bare @ becomes @~). Not when a
+        // block follows: the first alternative has just tried and rejected it, and it would be
+        // parsed again here (or as the next term), doubling the work at every nesting level.
+        map(preceded(pair(char('@'), no_block), opt(primary)), |opt_t| {
             Term::Spawn(
                 Box::new(opt_t.unwrap_or(Term::Access(Access {
                     source: Some(AccessSource::Ripple),
